@@ -233,6 +233,13 @@ def check_instance(inst, exp, *, tol=1e-9):
             obs_c = obs.rescale_cholesky(jnp.asarray(c60))
             cmp(f"logpdf_flat[{sname}].rescaled(2^-60).at-mean", obs_c.logpdf_flat(obs_c.mean_flat),
                 -0.5 * np.log(float(E["det"])) - 0.5 * M * np.log(2 * np.pi) - M * np.log(c60))
+            # ... and by c = 2^-300 / 2^300: the DETERMINANT of the factor leaves the floating-point range (its logarithm
+            # does not), so the log-determinant must be accumulated pivot by pivot
+            for e300 in (-300, 300):
+                c300 = 2.0**e300
+                obs_c = obs.rescale_cholesky(jnp.asarray(c300))
+                cmp(f"logpdf_flat[{sname}].rescaled(2^{e300}).at-mean", obs_c.logpdf_flat(obs_c.mean_flat),
+                    -0.5 * np.log(float(E["det"])) - 0.5 * M * np.log(2 * np.pi) - M * np.log(c300))
             lp, upd = c1.bayes_rule_and_logpdf_tree(data_tree, x, solve_triu=solve)
             cmp(f"bayes_rule_and_logpdf_tree[{sname}].logpdf", lp, want_lp)
             cmp_rv(f"bayes_rule_and_logpdf_tree[{sname}].updated", upd, E["post_mean"], E["post_cov"])
